@@ -766,12 +766,26 @@ def canonical(prog: Program):
         if ins.op not in ("label", "nop"):
             order.append(ins)
             k += 1
+    # a numeric jump target is a line number of the text, where every line counts (also blank and
+    # comment-only lines): map it to the label-free numbering like a label
+    linenos = sorted(index_of)
+
+    def target_index(n):
+        if n != int(n) or n < 0:
+            return float(n)
+        n = int(n)
+        nxt = [ln for ln in linenos if ln >= n]
+        return float(index_of[nxt[0]]) if nxt else float(k)
+
     out = []
     for ins in order:
         args = []
-        for kind, payload in ins.args:
+        sig = SIG.get(ins.op, "")
+        for pos, (kind, payload) in enumerate(ins.args):
             if kind == "label":
                 args.append(("num", float(index_of[prog.labels[payload]])))
+            elif kind == "num" and pos < len(sig) and sig[pos] == "T":
+                args.append(("num", target_index(payload)))
             elif kind == "name":
                 args.append(("name", payload))
             else:
